@@ -1,5 +1,6 @@
 import GoCrypt.Props.KdfProps
 import GoCrypt.Props.C16
+import GoCrypt.Props.C03b
 
 /-!
 # C03 — classic crypt(3) schemes compute the same hashes as the reference libcrypt
@@ -35,5 +36,32 @@ namespace GoCrypt.C03
 #print axioms GoCrypt.KdfProps.sha1_perm_facts
 #print axioms GoCrypt.C16.encode_eq_spec
 #print axioms GoCrypt.C16.exported_encodings
+
+-- the remaining schemes (Props/C03b.lean): model = reference written from the published algorithm, for all inputs;
+-- the table-driven DES of des/descrypt (tables regenerated from const.go) = FIPS 46-3 DES with the crypt(3) salt swap, for all 64-bit keys and blocks
+#print axioms GoCrypt.C03b.sha1crypt_eq_spec
+#print axioms GoCrypt.C03b.sunmd5_eq_spec
+#print axioms GoCrypt.C03b.sunmd5_eq_spec_wrap
+#print axioms GoCrypt.C03b.nthash_eq_spec
+#print axioms GoCrypt.C03b.utf16le_eq_spec
+#print axioms GoCrypt.C03b.bcrypt_eq_spec
+#print axioms GoCrypt.C03b.bcrypt_key_eq_spec
+#print axioms GoCrypt.C03b.bcrypt_long_password_deviation
+#print axioms GoCrypt.C03b.descrypt_layer_eq_spec
+#print axioms GoCrypt.C03b.desext_layer_eq_spec
+#print axioms GoCrypt.C03b.des_key_eq_spec
+#print axioms GoCrypt.C03b.desext_key_eq_spec
+#print axioms GoCrypt.C03b.encrypt_rounds_compose
+#print axioms GoCrypt.C03b.encrypt_eq_fips
+#print axioms GoCrypt.C03b.descrypt_eq_fips
+#print axioms GoCrypt.C03b.desext_eq_fips
+#print axioms GoCrypt.C03b.des_key_eq_fips
+#print axioms GoCrypt.C03b.desext_key_eq_fips
+#print axioms GoCrypt.C03b.ie3264_is_IP_then_E
+#print axioms GoCrypt.C03b.cf6464_is_IPinv
+#print axioms GoCrypt.C03b.spe_is_E_P_S
+#print axioms GoCrypt.C03b.speXor_is_E_P_S
+#print axioms GoCrypt.C03b.pc_tables_are_PC1_shifts_PC2
+#print axioms GoCrypt.C03b.salt_is_E_swap
 
 end GoCrypt.C03
